@@ -75,7 +75,7 @@ def main():
         "version": 1,
         "setup_cmd": "./setup",
         "hooks": {"guard": "verif", "enable": HOOK_NOTE,
-                  "baseline_off_cmd": "cd /repo && go test -vet=off -count=1 ./...",
+                  "baseline_off_cmd": "cd /repo && go test -json -vet=off -count=1 -timeout 25m ./...",
                   "source_commits": [], "add_only": True},
         "engines": [{"name": "sim", "path": "/verif/sim (+ /verif/tools/instrument, /verif/tools/driver)",
                      "serves_properties": sorted(CHECKS), "kind_free_text": "deterministic simulation with fault injection: seeded scheduler over an instrumented scratch copy inside testing/synctest bubbles, simulated readers/writers/transport/clock, reference-model oracles, trace shrinking and replay files"}],
